@@ -120,6 +120,7 @@ class Ctx:
                 name = b[4:-3]
                 return ('"%s"' % name) in plan or ("'%s'" % name) in plan or not plan
             excluded = []
+            excluded_shims = []
             for attempt in range(8):
                 ov = {"Replace": {}}
                 for f in files:
@@ -128,7 +129,10 @@ class Ctx:
                     ov["Replace"][os.path.join(REPO, HARNESS_PKG_DIR, os.path.basename(f))] = f
                 # shim files added to existing packages: harness/shims/<pkg path with __>/<file>.go
                 for f in sorted(glob.glob(os.path.join(VERIF, "harness", "shims", "*", "*.go"))):
-                    pkg = os.path.basename(os.path.dirname(f)).replace("__", "/")
+                    sd = os.path.basename(os.path.dirname(f))
+                    if sd in excluded_shims:
+                        continue
+                    pkg = sd.replace("__", "/")
                     ov["Replace"][os.path.join(REPO, pkg, os.path.basename(f))] = f
                 self.overlay = os.path.join(self.work, "overlay.json")
                 with open(self.overlay, "w") as fh:
@@ -140,9 +144,25 @@ class Ctx:
                 except Infra as e:
                     bad = set(re.findall(r"harness/([\w.]+\.go):", str(e)))
                     drop = [f for f in files if os.path.basename(f) in bad and not needed(f) and f not in excluded]
-                    if not drop:
+                    # a shim that no longer fits the package it is overlaid into (e.g. the unexported
+                    # function it exposes was renamed): leave it out together with the families using it
+                    for sd in set(re.findall(r"harness/shims/([\w.]+)/", str(e))):
+                        if sd in excluded_shims:
+                            continue
+                        excluded_shims.append(sd)
+                        syms = set()
+                        for sf in glob.glob(os.path.join(VERIF, "harness", "shims", sd, "*.go")):
+                            syms |= set(re.findall(r"\b(Verif\w+)\b", open(sf).read()))
+                        for f in files:
+                            if f not in excluded and f not in drop and any(("." + y) in open(f).read() for y in syms):
+                                if needed(f) and os.path.basename(f).startswith("fam_"):
+                                    raise
+                                drop.append(f)
+                        log("harness build: leaving out shim %s (no longer fits its package)" % sd)
+                    if not drop and not excluded_shims:
                         raise
-                    log("harness build: leaving out %s (does not compile at the moment)" % [os.path.basename(f) for f in drop])
+                    if drop:
+                        log("harness build: leaving out %s (does not compile at the moment)" % [os.path.basename(f) for f in drop])
                     excluded += drop
             else:
                 raise Infra("harness does not build")
